@@ -86,6 +86,7 @@ func genMulti(t *rapid.T, c *core.Ctx, mo multiOpts) *multiCase {
 			f.NoID = m.files[i-1].NoID
 		}
 		f.Spelling.LegacyID = rapid.IntRange(0, 3).Draw(t, "legacyid") == 0
+		f.Schema = rapid.SampledFrom(schemaURIs).Draw(t, "schemauri")
 		if mo.uniqueDefs {
 			ren := map[string]string{}
 			for k := range f.Defs {
@@ -192,7 +193,8 @@ func genMulti(t *rapid.T, c *core.Ctx, mo multiOpts) *multiCase {
 			}
 			out := fmt.Sprintf("out/%s/gen_%c.go", pkg, 'a'+i)
 			mp := gen.Mapping{ID: f.ID, Package: pkg, Output: out}
-			if rapid.IntRange(0, 3).Draw(t, "roottype") == 0 {
+			// (two files that share an id would both get the mapped root type name)
+			if rapid.IntRange(0, 3).Draw(t, "roottype") == 0 && !mo.allowDupID {
 				mp.RootType = fmt.Sprintf("Root%c", 'A'+i)
 			}
 			m.cfg.Mappings = append(m.cfg.Mappings, mp)
